@@ -10,6 +10,7 @@ import (
 	"encoding/json"
 	"fmt"
 	"os"
+	"runtime/pprof"
 	"strconv"
 )
 
@@ -75,6 +76,12 @@ func main() {
 		case "--replay":
 			i++
 			replay = os.Args[i]
+		}
+	}
+	if pf := os.Getenv("VERIF_CPUPROFILE"); pf != "" {
+		if f, err := os.Create(pf); err == nil {
+			pprof.StartCPUProfile(f)
+			defer pprof.StopCPUProfile()
 		}
 	}
 	ctx.R = NewRng(ctx.Seed)
